@@ -69,7 +69,7 @@ class Context:
                     OMP_NUM_THREADS="1",
                     MKL_NUM_THREADS="1",
                     NUMEXPR_NUM_THREADS="1",
-                    PYTHONPATH=f"{HARNESS}/agent:{REPO}",
+                    PYTHONPATH=f"{HARNESS}/agent:{REPO}:{DEPS}",
                     PYTHONHASHSEED=hs,
                     JADE_REGISTRY=self.registry,
                     HOME=self.base,
